@@ -454,7 +454,7 @@ func extTypes() []*MsgType {
 
 var c12Kinds = []string{"set", "set", "set", "get", "has", "clear", "clear", "clearall", "range", "range", "marshal", "number", "set-foreign", "has-foreign", "get-foreign", "has-undeclared", "clear-undeclared"}
 
-const ruleC12 = "case = a proto2 message type with extensions (one file per extension kind: 15 scalars, enum, message; plus file-scope / nested-scope / multiple extensions / extensions with defaults), 2 in 3 starting with its regular fields populated, 1 in 4 decoded by its runtime from bytes that carry an undeclared field inside the extension range, of gogo / Google v1 (legacy) / Google v2, plain and fast-marshal, + a program of <= 30 ops over {Set, Get, Has, Clear, ClearAll, Range, Marshal, ExtensionFieldNumber, and Set/Has/Get with the descriptor of ANOTHER runtime, Has/Clear with a hand-built unregistered descriptor for an undeclared number the message was decoded with (gogo / golang)}; model map[number]value AND a twin message driven through the owning runtime's own extension API with the same ops: after each step Has/Get agree with both, after Clear/ClearAll/Marshal the extension's number is on the wire iff it is set (in the runtime's Marshal output and, for types with generated code, in csproto.Marshal's), Range visits exactly the set numbers and exactly what the owning runtime's own enumeration reports on the twin, a foreign descriptor yields false / an error and leaves the message equal to its twin; non-trivial = a program with >= 1 Set followed later by Clear / ClearAll / Range; distinct by program; descriptor.proto options: a custom string option on each of the nine XxxOptions messages of Google's descriptorpb and of gogo's descriptor package, Set / Has / Get / Range / Clear / ClearAll against a twin driven through the owning runtime; first-use clause: 10 (thorough 40) further fresh processes in which each type's FIRST csproto call is one of 10 entry points (Has/Get/Clear/ClearAll/Range/SetExtension, MsgType, Equal, Marshal on a typed nil pointer; HasExtension on a message), rotated so that every (type, first call) pair occurs, followed by a fixed Set/Has/Get/Range/Clear/ClearAll program under the same oracle"
+const ruleC12 = "case = a proto2 message type with extensions (one file per extension kind: 15 scalars, enum, message; plus file-scope / nested-scope / multiple extensions / extensions with defaults), 2 in 3 starting with its regular fields populated, 1 in 4 decoded by its runtime from bytes that carry an undeclared field inside the extension range, of gogo / Google v1 (legacy) / Google v2, plain and fast-marshal, + a program of <= 30 ops over {Set, Get, Has, Clear, ClearAll, Range, Marshal, ExtensionFieldNumber, and Set/Has/Get with the descriptor of ANOTHER runtime, Has/Clear with a hand-built unregistered descriptor for an undeclared number the message was decoded with (gogo / golang)}; model map[number]value AND a twin message driven through the owning runtime's own extension API with the same ops: after each step Has/Get agree with both, after Clear/ClearAll/Marshal the extension's number is on the wire iff it is set (in the runtime's Marshal output and, for types with generated code, in csproto.Marshal's), Range visits exactly the set numbers and exactly what the owning runtime's own enumeration reports on the twin, a foreign descriptor yields false / an error and leaves the message equal to its twin; non-trivial = a program with >= 1 Set followed later by Clear / ClearAll / Range; distinct by program; descriptor.proto options: a custom string option on each of the nine XxxOptions messages of Google's descriptorpb and of gogo's descriptor package, Set / Has / Get / Range / Clear / ClearAll against a twin driven through the owning runtime; first-use clause: 10 (thorough 40) further fresh processes in which each type's FIRST csproto call is one of 10 entry points (Has/Get/Clear/ClearAll/Range/SetExtension, MsgType, Equal, Marshal on a typed nil pointer; HasExtension on a message), rotated so that every (type, first call) pair occurs, followed by a fixed Set/Has/Get/Range/Clear/ClearAll program under the same oracle; 8 (thorough 80) further fresh processes in which the first use of every type is made by 8 goroutines at once, each running that program on a message of its own"
 
 func TestC12(t *testing.T) {
 	if v := os.Getenv(envC12Child); v != "" {
